@@ -25,7 +25,7 @@ def run(ctx):
     ctx.log("validated %d traces / %d events: %d rejected (TLC %d states, %.1fs)" % (
         summ["traces"], summ["events"], len(rej), r.distinct, r.wall))
     nc.report_rejections(ctx, tr, rej)
-    nself = nc.selftest_binding(ctx, tr) if not ctx.replay else 0
+    nself = nc.selftest_binding(ctx, tr) if not ctx.replay and not rej else 0
     ctx.write_evidence("model_checking", {
         "states": mc.distinct, "transitions": mc.generated,
         "traces_validated_against_impl": summ["traces"],
